@@ -952,7 +952,7 @@ func TestCheck(t *testing.T) {
 		r.Assume("client connection settings are excluded (the statement excepts them); endpoint health is excluded (all endpoints are unreachable in both gateways)")
 		r.Assume("a pending requeue is re-delivered until it succeeds or a whole round of re-deliveries changes nothing")
 
-		nh := r.N(4000, 30000)
+		nh := r.N(8000, 30000)
 		workers := runtime.GOMAXPROCS(0)
 		if workers > 16 {
 			workers = 16
